@@ -67,6 +67,18 @@ func c04Diff(ref, got *Outcome) (clause, detail string, rule int) {
 	return "", "", 0
 }
 
+// c04Canon is the part of an outcome that the statement names, in a canonical
+// form (sets sorted, multisets sorted).
+func c04Canon(o *Outcome) any {
+	data := map[int][]string{}
+	for _, id := range sortedSet(o.Fired) {
+		d := append([]string(nil), o.Data[id]...)
+		sort.Strings(d)
+		data[id] = d
+	}
+	return map[string]any{"panic": o.Panic != "", "interrupted": o.Interrupted, "fired": sortedSet(o.Fired), "data": data, "cnt": o.TX["cnt"], "score": o.TX["score"]}
+}
+
 func c04Run(w *verifrt.World, tier Tier) *RunResult {
 	res := &RunResult{}
 	t := w.Work
@@ -110,6 +122,7 @@ func c04Run(w *verifrt.World, tier Tier) *RunResult {
 	}
 	ref := runTx(h, script)
 	h.Close()
+	res.note("reference", c04Canon(ref))
 
 	// a sibling WAF stays open during the repetitions: the same rules with the
 	// regex selectors moved to the other case-sensitivity class (ARGS family <->
@@ -185,7 +198,7 @@ func c04Run(w *verifrt.World, tier Tier) *RunResult {
 
 func init() {
 	register(&Check{
-		ID: "C04", Level: "exploration", Run: c04Run,
+		ID: "C04", Level: "exploration", Run: c04Run, HistoryProbe: true,
 		Runs:       [2]int{12000, 200000},
 		MaxSeconds: [2]int{90, 1500},
 		Rule: "one run = one generated (configuration of 1-6 rules incl. chains, exclusions, regex keys, counts, transformations, setvar counters, flow actions; request with repeated / mixed-case names in query, cookies, headers, urlencoded / multipart / JSON body, optional SecArgumentsLimit) " +
